@@ -107,6 +107,9 @@ Steps ==
                 [op |-> "distinct", fields |-> <<>>], [op |-> "count"],
                 [op |-> "aggregate", aggs |-> <<[name |-> "n", t |-> "count"]>>],
                 [op |-> "aggregate", aggs |-> <<[name |-> "n", t |-> "count"], [name |-> "t", t |-> "term", field |-> "_label", size |-> 0]>>],
+                \* an aggregation the engine refuses while rows are still arriving (histogram without an interval):
+                \* the step may answer with nothing, but the traversal ends like any other
+                [op |-> "aggregate", aggs |-> <<[name |-> "z", t |-> "histogram", field |-> "k", interval |-> 0]>>],
                 [op |-> "limit", n |-> 3], [op |-> "range", a |-> 1, b |-> 4] }
       wide == { [op |-> "fields", fields |-> <<"k">>], [op |-> "path"], [op |-> "skip", n |-> 2], [op |-> "limit", n |-> 0],
                 [op |-> "limit", n |-> 150], [op |-> "distinct", fields |-> <<"_label">>],
@@ -116,17 +119,21 @@ Steps ==
                                                  [name |-> "y", t |-> "type", field |-> "k"]>>] }
   IN IF Alpha = "wide" THEN base \cup wide ELSE base
 
+\* V("@1"): the vertices of class 1 looked up by id (the centre of a star, the head of a chain, the left side of
+\* a bipartite graph) - a source that is not a scan: nothing stops it but the end of its id list
 Starts == { <<[op |-> "V", ids |-> <<>>]>>, <<[op |-> "E", ids |-> <<>>]>>,
-            <<[op |-> "V", ids |-> <<>>], [op |-> "hasLabel", labels |-> <<"L">>]>> }
+            <<[op |-> "V", ids |-> <<>>], [op |-> "hasLabel", labels |-> <<"L">>]>>,
+            <<[op |-> "V", ids |-> <<"@1">>]>> }
 
 Ones(n) == [i \in 1..n |-> 1]
 Exact(ty, m) == [ty |-> ty, m |-> m, trunc |-> FALSE, lo |-> Total(g, ty, m), hi |-> Total(g, ty, m),
                  flows |-> <<>>, kinds |-> <<>>, bothmax |-> 0, mono |-> TRUE, need |-> -1, tags |-> ty = "v"]
 StartState(p) ==
   LET st0 == CASE p[1].op = "E" -> Exact("e", Ones(NQ(g)))
+               [] p[1].ids # <<>> -> Exact("v", [c \in 1..NC(g) |-> IF c = 1 THEN 1 ELSE 0])
                [] Len(p) = 2     -> Exact("v", [c \in 1..NC(g) |-> IF VLabel(g, c) = "L" THEN 1 ELSE 0])
                [] OTHER          -> Exact("v", Ones(NC(g)))
-  IN [st0 EXCEPT !.flows = <<st0.hi>>, !.kinds = <<IF Len(p) = 2 THEN "source.index" ELSE "source">>]
+  IN [st0 EXCEPT !.flows = <<st0.hi>>, !.kinds = <<IF p[1].ids # <<>> THEN "source.ids" ELSE IF Len(p) = 2 THEN "source.index" ELSE "source">>]
 
 \* which steps apply to which row type
 Applies(x, ty) ==
@@ -189,13 +196,17 @@ Apply(x) ==
                                                         [] x.aggs[i].t = "histogram" -> MinOf(4, s.hi) [] x.aggs[i].t = "field" -> MinOf(2, s.hi)
                                                         [] OTHER -> MinOf(1, s.hi)])
                    dn == Sum([i \in DOMAIN x.aggs |-> CASE x.aggs[i].t = "count" -> 1 [] x.aggs[i].t \in {"term", "type", "field"} -> MinOf(1, s.lo) [] OTHER -> 0])
-               IN IF ~s.trunc /\ ~dd THEN [s EXCEPT !.ty = "o", !.m = <<>>, !.lo = Sum(rs), !.hi = Sum(rs)]
+                   refused == \E i \in DOMAIN x.aggs : x.aggs[i].t = "histogram" /\ x.aggs[i].interval = 0
+               IN IF refused THEN [s EXCEPT !.ty = "o", !.m = <<>>, !.trunc = FALSE, !.lo = 0, !.hi = up]
+                  ELSE IF ~s.trunc /\ ~dd THEN [s EXCEPT !.ty = "o", !.m = <<>>, !.lo = Sum(rs), !.hi = Sum(rs)]
                   ELSE [s EXCEPT !.ty = "o", !.m = <<>>, !.trunc = FALSE, !.lo = dn, !.hi = up]
           [] x.op = "limit" -> [s EXCEPT !.trunc = s.trunc \/ s.hi > x.n, !.lo = MinOf(s.lo, x.n), !.hi = MinOf(s.hi, x.n)]
           [] x.op = "skip"  -> [s EXCEPT !.trunc = s.trunc \/ (x.n > 0 /\ s.hi > 0), !.lo = MaxOf(s.lo - x.n, 0), !.hi = MaxOf(s.hi - x.n, 0)]
           [] x.op = "range" -> [s EXCEPT !.trunc = s.trunc \/ (s.hi > 0 /\ (x.a > 0 \/ s.hi > x.b)),
                                          !.lo = MaxOf(MinOf(s.lo, x.b) - x.a, 0), !.hi = MaxOf(MinOf(s.hi, x.b) - x.a, 0)]
-      kind == CASE x.op = "count" -> "count" [] x.op = "aggregate" -> "agg" [] x.op \in {"limit", "range"} -> "limit"
+      kind == CASE x.op = "count" -> "count"
+                [] x.op = "aggregate" -> IF \E i \in DOMAIN x.aggs : x.aggs[i].t = "histogram" /\ x.aggs[i].interval = 0 THEN "agg.refused" ELSE "agg"
+                [] x.op \in {"limit", "range"} -> "limit"
                 [] x.op = "skip" -> "simple" [] x.op = "distinct" -> "distinct" [] OTHER -> t.kind
   IN [res EXCEPT !.flows = Append(s.flows, res.hi), !.kinds = Append(s.kinds, kind),
                  !.tags = IF x.op \in {"out", "in", "both"} THEN TRUE
